@@ -15,8 +15,18 @@ _C19_WRAP = ("signed overflow: two's-complement wrap on both sides (what the com
 _C19_FP_EQ = ["ctor", "lin", "mean", "mul", "dot", "div", "norm", "normalized", "normalize", "normalize_cond"]
 _C19_FP_REL = ["red", "maxmin", "maxabs"]
 
-def _c19_he_shards(bases):
-    return [{0: b, 1: he} for b in bases for he in range(2 * BASE_COUNTS[b][1])]
+_C19_FP_EQ_BOUNDS = ("every component/scalar an arbitrary bit pattern (NaN, inf, denormals, -0 included): each result equals the defining formula evaluated in IEEE-754 "
+    "binary32/64 round-to-nearest in the same association order, bit for bit (or both NaN): constructors, access, swap, float<->double conversion, ->int where |x| < 2^31, "
+    "+ - unary- += -=, == != (IEEE comparison), lexicographic < (no NaN), mean, mean_abs, component/scalar * / *= /=, s*v, dot, sqrnorm, cross (dim 3), homogenized (dim 4), "
+    "norm/length/normalized/normalize/normalize_cond modulo sqrt (uninterpreted function shared with the oracle); x86-64 baseline code generation (no FMA contraction); "
+    "outside: 'within rounding' w.r.t. real arithmetic, stream << >>")
+_C19_FP_REL_BOUNDS = ("arbitrary non-NaN bit patterns: max() min() max_abs() min_abs() l8_norm() are attained bounds, min/max/minimize/maximize/minimized/maximized "
+    "component-wise (numeric equality; sign of zero not prescribed)")
+
+def _c19_len_shards(bases, sels=None):   # v_param(1): halfedge index, or 2*nE + edge index
+    return [{0: b, 1: x} for b in bases for x in (sels if sels is not None else range(3 * BASE_COUNTS[b][1]))]
+def _c19_edge_shards(bases):
+    return [{0: b, 1: e} for b in bases for e in range(BASE_COUNTS[b][1])]
 def _c19_dvec_shards(base, hes):
     return [{0: base, 1: he, 2: k} for he in hes for k in range(6 if he % 2 == 0 else 3)]
 
@@ -38,24 +48,20 @@ PROPS["C19"] = dict(
                 "homogenized (dim 4); division: divisor != 0 and not INT_MIN / -1; norm()/length() == sqrt((double)sqrnorm) with sqrt an uninterpreted function shared by "
                 "implementation and oracle; " + _C19_WRAP + "; outside: normalize on integer vectors"),
     dict(name="vec-l1norm", harness="C19_vec_int.cpp", entries=["harness_l1_i2", "harness_l1_i3", "harness_l1_i4"],
-         units=[], unwind=20, solvers=["minisat"], slice=False, timeout=300, mem_gb=2,
+         units=[], unwind=20, solvers=["minisat"], timeout=300, mem_gb=2,
          bounds="VectorT<int, 2|3|4>, free 32-bit components != INT_MIN: l1_norm() == sum |x_i| (wrapping sum)"),
     # ---------------------------------------------------------------- floating-point vectors, arbitrary bit patterns
-    dict(name="vec-fp-formula", harness="C19_vec_fp.cpp", entries={"quick": _c19_e(_C19_FP_EQ, _C19_FP_QUICK) + ["harness_cross_f3", "harness_cross_d3"],
-                                                                  "thorough": _c19_e(_C19_FP_EQ, _C19_FP_QUICK + _C19_FP_MORE) + ["harness_cross_f3", "harness_cross_d3"]},
-         units=[], unwind=20, solvers=["cvc5"], timeout=300, mem_gb=4,
-         bounds="VectorT<float,3|4>, VectorT<double,3> (thorough: + double 2,4), every component/scalar an arbitrary bit pattern (NaN, inf, denormals, -0 included): each result "
-                "equals the defining formula evaluated in IEEE-754 binary32/64 round-to-nearest in the same association order, bit for bit (or both NaN): constructors, access, swap, "
-                "float<->double conversion, ->int where |x| < 2^31, + - unary- += -=, == != (IEEE comparison), lexicographic < (no NaN), mean, mean_abs, component/scalar * / *= /=, "
-                "s*v, dot, sqrnorm, cross (dim 3), homogenized (dim 4), norm/length/normalized/normalize/normalize_cond modulo sqrt (uninterpreted function shared with the oracle); "
-                "x86-64 baseline code generation (no FMA contraction); outside: 'within rounding' w.r.t. real arithmetic, VectorT<float,2> (no verdict in 300 s), stream << >>"),
-    dict(name="vec-fp-order", harness="C19_vec_fp.cpp", entries={"quick": _c19_e(_C19_FP_REL, _C19_FP_QUICK), "thorough": _c19_e(_C19_FP_REL, _C19_FP_QUICK + _C19_FP_MORE)},
-         units=[], unwind=20, solvers=["minisat", "cvc5"], timeout=300, mem_gb=4,
-         bounds="VectorT<float,3|4>, VectorT<double,3> (thorough: + double 2,4), arbitrary non-NaN bit patterns: max() min() max_abs() min_abs() l8_norm() are attained bounds, "
-                "min/max/minimize/maximize/minimized/maximized component-wise (numeric equality; sign of zero not prescribed)"),
-    dict(name="vec-fp-l1norm", harness="C19_vec_fp.cpp", entries={"quick": _c19_e(["l1"], ["f3", "d3"]), "thorough": _c19_e(["l1"], _C19_FP_QUICK + _C19_FP_MORE)},
-         units=[], unwind=20, solvers=["minisat"], slice=False, timeout=300, mem_gb=4,
-         bounds="finite components with |x| < 1e30: l1_norm() >= |x_i| for every i (a necessary condition of l1_norm() == sum |x_i| under any rounding)"),
+    dict(name="vec-fp-formula", harness="C19_vec_fp.cpp", entries=_c19_e(_C19_FP_EQ, _C19_FP_QUICK) + ["harness_cross_f3", "harness_cross_d3"],
+         units=[], unwind=20, solvers=["cvc5"], timeout=300, mem_gb=4, bounds="VectorT<float,3>, VectorT<float,4>, VectorT<double,3>: " + _C19_FP_EQ_BOUNDS),
+    dict(name="vec-fp-formula-more", harness="C19_vec_fp.cpp", entries=_c19_e(_C19_FP_EQ, _C19_FP_MORE), tiers=["thorough"],
+         units=[], unwind=20, solvers=["cvc5"], timeout=600, mem_gb=4, bounds="VectorT<double,2>, VectorT<double,4>: " + _C19_FP_EQ_BOUNDS),
+    dict(name="vec-fp-order", harness="C19_vec_fp.cpp", entries=_c19_e(_C19_FP_REL, _C19_FP_QUICK),
+         units=[], unwind=20, solvers=["minisat", "cvc5"], timeout=300, mem_gb=4, bounds="VectorT<float,3>, VectorT<float,4>, VectorT<double,3>: " + _C19_FP_REL_BOUNDS),
+    dict(name="vec-fp-order-more", harness="C19_vec_fp.cpp", entries=_c19_e(_C19_FP_REL, _C19_FP_MORE), tiers=["thorough"],
+         units=[], unwind=20, solvers=["minisat", "cvc5"], timeout=600, mem_gb=4, bounds="VectorT<double,2>, VectorT<double,4>: " + _C19_FP_REL_BOUNDS),
+    dict(name="vec-fp-l1norm", harness="C19_vec_fp.cpp", entries=_c19_e(["l1"], ["f3", "d3"]),
+         units=[], unwind=20, solvers=["minisat"], timeout=300, mem_gb=4,
+         bounds="VectorT<float,3>, VectorT<double,3>, finite components with |x| < 1e30: l1_norm() >= |x_i| for every i (a necessary condition of l1_norm() == sum |x_i| under any rounding)"),
     dict(name="vec-fp-float2", harness="C19_vec_fp.cpp", entries=_c19_e(_C19_FP_EQ + _C19_FP_REL, ["f2"]), tiers=["thorough"],
          units=[], unwind=20, solvers=["cvc5", "minisat"], timeout=600, mem_gb=4,
          bounds="VectorT<float,2>: same obligations as vec-fp-formula / vec-fp-order (clang keeps the 8-byte vector in an i64 temporary; expected to be only partly decided)"),
@@ -68,14 +74,14 @@ PROPS["C19"] = dict(
                 "probe, barycenter(face)/barycenter(cell) == (wrapping sum of the positions of the entity's vertices)/count with C++ integer division, every face and cell of the base"),
     dict(name="geom-int-length", harness="C19_geom.cpp", entries=["harness_geom_i_length"], units=_C19_GEOM_UNITS, unwind=60, object_bits=13,
          solvers=["cadical"], witness_any=True, timeout=300, mem_gb=4,
-         shards={"quick": _c19_he_shards([B_TET]), "thorough": _c19_he_shards([B_LOWDIM, B_TRI2, B_TET, B_TET2_FACE])},
-         bounds="length(halfedge), length(edge) == (int) sqrt((double) wrapping squared norm of position(to)-position(from)), sqrt uninterpreted (shared); every halfedge of the "
-                "base (one query each), all positions free 32-bit ints"),
+         shards={"quick": _c19_len_shards([B_TET], [1, 6, 15]), "thorough": _c19_len_shards([B_LOWDIM, B_TET, B_TET2_FACE])},
+         bounds="length(halfedge), length(edge) == (int) sqrt((double) wrapping squared norm of position(to)-position(from)), sqrt uninterpreted (shared); one halfedge or edge "
+                "per query (quick: halfedges 1, 6 and edge 3 of the tetrahedron; thorough: every halfedge and edge of three bases), all positions free 32-bit ints"),
     dict(name="geom-int-edge-barycenter", harness="C19_geom.cpp", entries=["harness_geom_i_bary_edge"], units=_C19_GEOM_UNITS, unwind=60, object_bits=13,
-         solvers=["cadical"], witness_any=True, slice=False, timeout=300, mem_gb=4,
-         shards={"quick": [{0: B_TET}], "thorough": [{0: B_TET}, {0: B_LOWDIM}]},
-         bounds="barycenter(edge) for a symbolic edge probe, positions free ints with |x| < 2^30: equals the exact midpoint where that is an integer vector, and is one of the two "
-                "nearest integers otherwise"),
+         solvers=["cadical"], witness_any=True, timeout=300, mem_gb=4,
+         shards={"quick": _c19_edge_shards([B_TET])[:2], "thorough": _c19_edge_shards([B_TET, B_LOWDIM])},
+         bounds="barycenter(edge), one edge per query (quick: edges 0,1 of the tetrahedron), positions of its end vertices free ints with |x| < 2^30, other vertices fixed: "
+                "equals the exact midpoint where that is an integer vector, and is one of the two nearest integers otherwise"),
     dict(name="geom-double", harness="C19_geom.cpp", entries=["harness_geom_d_vertex"], units=_C19_GEOM_UNITS, unwind=60, object_bits=13,
          solvers=["cadical"], witness_any=True, timeout=300, mem_gb=4,
          shards={"quick": [{0: B_TET}], "thorough": [{0: b} for b in (B_LOWDIM, B_TET, B_TET2_FACE, B_HEX)]},
